@@ -235,6 +235,101 @@ def units(ctx: Ctx, only=None):
     cs = gen(ctx)
     return [Unit("seal.tamper", "seal", cs.cases, impl_seal, prop_pred=make_pred(cs), bucket=bucket)]
 
+# ---- request shapes: the reply-side gate must not depend on what the REQUEST carried ---------------------------------------
+# (added after the seeded change C16-empty-stub-request-not-sealed-r8: a request with an empty stub was sent unsealed and the
+# cooperating reply path then accepted a cleartext reply; the unit seal.tamper always sent the 3-octet stub b"req")
+REQ_LENS = (0, 1, 15, 16, 17, 40)
+
+
+def impl_reqshape(arg):
+    """[flavour, sign, seq, request stub length, 0 (no verification trailer), reply octets] -> the stub handed to the caller, over the public
+    request() of an authenticated connection (toy security context)"""
+    import asyncio
+
+    from dpapi_ng._rpc import _client as C
+
+    flavour, sign, seq, reqlen, _unused, stream = arg
+    prov = toyctx.make_provider(10, 16, send_seq=0, recv_seq=seq)
+    stub = bytes((7 * i + 1) % 256 for i in range(reqlen))
+    if flavour == 0:
+        sock = ScriptSock(bytes(stream), [], budget=4 * len(stream) + 50)
+        c = C.SyncRpcClient(sock, prov)
+        c._sign_header = bool(sign)
+        r = c.request(0, 0, stub)
+        return bytes(r.stub_data)
+
+    async def run():
+        reader = asyncio.StreamReader()
+        reader.feed_data(bytes(stream))
+        reader.feed_eof()
+        c = C.AsyncRpcClient(reader, _Writer(), prov)
+        c._sign_header = bool(sign)
+        r = await c.request(0, 0, stub)
+        return bytes(r.stub_data)
+
+    return asyncio.run(run())
+
+
+def reqshape_cases(ctx: Ctx):
+    """(case, expected stub or None when the reply must be refused, reason)"""
+    out = []
+    k = 0
+    for reqlen in REQ_LENS:
+        for sign in (0, 1):
+            for n in (0, 5, 16):
+                k += 1
+                fl, seq = k % 2, 3 + k
+                data = bytes((i * 11 + 3) % 256 for i in range(n))
+                wire, stub = sealed_reply(data, 16, bool(sign), seq)
+                out.append(([fl, sign, seq, reqlen, 0, wire], stub, None))
+                out.append(([fl, sign, seq, reqlen, 0, clear_reply(b"EVIL" * 4)], None, "a cleartext reply (no security trailer)"))
+                out.append(([fl, sign, seq, reqlen, 0, clear_reply(stub)], None, "a cleartext reply (no security trailer) carrying the genuine stub"))
+                out.append(([fl, sign, seq, reqlen, 0, forged_reply(b"EVIL" * 4, 16)], None, "a forged reply (cleartext stub, made-up signature)"))
+                out.append(([fl, sign, seq + 1, reqlen, 0, wire], None, "a replayed reply (sealed under another sequence number)"))
+    return out
+
+
+def pred_reqshape(want, reason):
+    def pred(arg, out):
+        what = f"request with a {arg[3]}-octet stub on an authenticated connection ({'async' if arg[0] else 'sync'}, header signing {'on' if arg[1] else 'off'}): "
+        if want is None:
+            if isinstance(out, Err) or out is None:
+                return None
+            return what + f"{reason} was accepted: stub " + bytes(out)[:24].hex()
+        if isinstance(out, Err) or out is None:
+            return what + f"an authentic sealed reply was refused ({out})"
+        if bytes(out) != bytes(want):
+            return what + "the stub handed to the caller is not what the security context unsealed: " + bytes(out)[:24].hex()
+        return None
+
+    return pred
+
+
+def oracles(ctx: Ctx):
+    from ..core import run_impl
+    from ..val import dec, enc
+
+    n = 0
+    for arg, want, reason in reqshape_cases(ctx):
+        n += 1
+        o = run_impl(impl_reqshape, arg)
+        why = pred_reqshape(want, reason)(arg, dec(o))
+        if why:
+            ctx.violation("failing-input", "oracle:seal.reqshape", {"unit": "seal.reqshape", "input": enc(arg), "why": why}, key="seal.reqshape")
+            break
+    ctx.oracle_runs += n
+    ctx.extra["request_shape_replies"] = n
+
+
+def _reqshape_replay_pred(arg, out):
+    for a, want, reason in reqshape_cases(None):
+        if a[:5] == list(arg[:5]) and bytes(a[5]) == bytes(arg[5]):
+            return pred_reqshape(want, reason)(arg, out)
+    return pred_reqshape(None, "this reply")(arg, out)
+
+
+ORACLE_REPLAY = {"seal.reqshape": (impl_reqshape, _reqshape_replay_pred)}
+
 
 def search(ctx: Ctx):
     from ..core import run_impl
